@@ -84,6 +84,11 @@ def main():
     props = props or [meta.get("property")]
     res = {"seed": os.path.basename(sd), "property": meta.get("property"), "checks": {}}
     fresh_worktree()
+    # evidence files are rewritten by every check run: keep the ones from the unchanged tree
+    evdir, evbak = os.path.join(ROOT, "evidence"), os.path.join(ROOT, "build", "evidence.bak")
+    shutil.rmtree(evbak, ignore_errors=True)
+    if os.path.isdir(evdir):
+        shutil.copytree(evdir, evbak)
     try:
         if suite:
             res["demo_without_change"], _ = run_demo(sd)
@@ -111,6 +116,9 @@ def main():
     finally:
         subprocess.run(["git", "-C", "/repo", "worktree", "remove", "--force", WT], stdout=subprocess.DEVNULL, stderr=subprocess.DEVNULL)
         shutil.rmtree(WT, ignore_errors=True)
+        if os.path.isdir(evbak):
+            shutil.rmtree(evdir, ignore_errors=True)
+            shutil.copytree(evbak, evdir)
         # put the generated facts and the harness back in step with /repo
         subprocess.run([os.path.join(ROOT, "check"), "setup"], stdout=subprocess.DEVNULL, stderr=subprocess.DEVNULL)
     print(json.dumps(res, indent=1))
